@@ -524,6 +524,14 @@ def run(ctx):
         "e2e": e2e,
         "samples": samples,
     })
+    if matches_prefix_everywhere:
+        ctx.notes.append("implementation = pre-fix model (finding F2, python/trace-python.c apply_filters): "
+                         "c19_balanced_output / c19_refines_doc hold for the repaired code only; see "
+                         "c19_prefix_unbalanced_witness")
+    ctx.notes.append("after sys.exit()/an uncaught exception the returns of runpy's frames still reach the tracer "
+                     "(python/uftrace.py has no try/finally around exec): one unpaired cygprof_exit each in the "
+                     "default and --nest-libcall modes, dropped by libmcount with a WARN on stderr "
+                     "(c19_stray_return_unpaired_exit); the recorded trace stays balanced")
     ctx.assumptions += [
         "the interpreter delivers properly nested call/return, c_call/c_return|c_exception events to the profile "
         "function of one thread (sys.setprofile discipline); os._exit cuts the stream",
@@ -544,7 +552,7 @@ def gen_program(rng, exit_mode):
     """A Python program over a,b,g,h (acyclic calls) using C functions, a caught
     exception, a generator, recursion, a method and a closure."""
     order = {"a": ["b", "g", "h"], "b": ["g", "h"], "g": ["h"], "h": []}
-    src = ["#!/usr/bin/env python3", "import os", "import sys", "import json", "",
+    src = ["#!/usr/bin/env python3", "import os", "import sys", "",
            "def thrower():", "    raise ValueError('x')", "",
            "def gen():", "    yield 1", "    yield 2", "",
            "def rec(n):", "    if n > 0:", "        rec(n - 1)", "    return os.getpid()", "",
@@ -554,7 +562,7 @@ def gen_program(rng, exit_mode):
         src.append("def %s():" % f)
         body = []
         for _ in range(rng.randint(0, 4)):
-            c = rng.choice(order[f] + ["os.getpid", "len", "raise", "gen", "rec", "meth", "closure", "json",
+            c = rng.choice(order[f] + ["os.getpid", "len", "raise", "gen", "rec", "meth", "closure", "ospath",
                                        "cexc", "sorted"])
             if c == "os.getpid":
                 body.append("    os.getpid()")
@@ -570,8 +578,8 @@ def gen_program(rng, exit_mode):
                 body.append("    K().m()")
             elif c == "closure":
                 body.append("    outer()")
-            elif c == "json":
-                body.append("    json.dumps([1, 2])")
+            elif c == "ospath":           # a library function written in Python (module already loaded)
+                body.append("    os.path.join('a', 'b')")
             elif c == "cexc":
                 body += ["    try:", "        int('zz')", "    except ValueError:", "        pass"]
             elif c == "sorted":
@@ -623,9 +631,10 @@ def read_log(path):
     return evs, libs
 
 
-def expected_ops(evs, libs, mode, filters, fixed_code):
+def expected_ops(evs, libs, mode, filters):
     """Ground-truth events -> the hook calls the documented selection asks for.
-    Returns (ops, cut) ; cut = True when the program stopped inside calls."""
+    Returns (ops, cut, number of calls left open) ; cut = True when the program
+    stopped inside calls (os._exit)."""
     # an uncaught exception / sys.exit: the returns of the frames that were
     # entered before tracing started (runpy) follow; they are not calls of the program
     names = []
@@ -660,6 +669,17 @@ def tree_of_loose(evs):
     return stack[0]
 
 
+def until_module_end(ops):
+    if not ops or ops[0] != "__main__.<module>":
+        return ops
+    d = 0
+    for i, o in enumerate(ops):
+        d += 1 if o is not None else -1
+        if d == 0:
+            return ops[:i + 1]
+    return ops
+
+
 def run_e2e(ctx):
     rng = ctx.rng
     okb, log = ctx.make()
@@ -675,8 +695,10 @@ def run_e2e(ctx):
     runs = fails = known_hits = stray_warn = 0
     f = f2_open()
     filter_opts = [[], ["-F", "a"], ["-N", "g"], ["-F", "a", "-N", "g"], ["-F", "b", "-N", "h"],
-                   ["-N", "thrower"], ["-F", "g"], ["-N", "^json"], ["-F", "rec", "-N", ".getpid"],
-                   ["-F", "^K"], ["-N", "gen", "-N", "builtins.len"]]
+                   ["-N", "thrower"], ["-F", "g"], ["-N", "^posixpath.join$"], ["-F", "rec", "-N", "^posix.getpid$"],
+                   ["-F", "^K.m$"], ["-N", "gen", "-N", "^builtins.len$"]]
+    # (-F patterns are anchored on both sides: libmcount applies UFTRACE_FILTER to the native symbols
+    #  of the interpreter as well, and an opt-in pattern that matches one of them empties the trace — C05)
     for pi in range(nprog):
         exit_mode = rng.choice(["none", "none", "none", "sys.exit", "os._exit", "raise"])
         path = os.path.join(wd, "p%d.py" % pi)
@@ -706,11 +728,11 @@ def run_e2e(ctx):
                 for i in range(0, len(filt), 2):
                     ents.append(("regex" if any(ch in REGEX_CHARS for ch in filt[i + 1]) else "simple",
                                  filt[i + 1], "in" if filt[i] == "-F" else "out"))
-                want, cut, nopen = expected_ops(evs, libs, mode, ents or None, True)
+                want, cut, nopen = expected_ops(evs, libs, mode, ents or None)
                 if cut:
                     # stopped by os._exit: the closers of the open calls are never recorded, and the
                     # hook (os_exit -> uftrace_python.exit) is part of uftrace, not of the program
-                    drop = ("os_exit", "uftrace_python.exit")
+                    drop = ("os_exit", "uftrace_python.exit", "posix._exit")
                     w = [x for x in want if x not in drop]
                     g = [x for x in got if x not in drop]
                     while w and w[-1] is None:
@@ -719,7 +741,9 @@ def run_e2e(ctx):
                         g.pop()
                     same = g == w
                 else:
-                    same = got == want
+                    # what the interpreter itself calls after the script has ended (printing the
+                    # traceback of an uncaught exception) is not part of the program
+                    same = until_module_end(got) == until_module_end(want)
                 if "unpaired cygprof exit" in r.stderr:
                     stray_warn += 1
                 same_out = (r.stdout == base.stdout and (r.returncode == 0) == (base.returncode == 0))
@@ -729,7 +753,7 @@ def run_e2e(ctx):
                         known_hits += 1
                         continue
                     fails += 1
-                    if fails <= 2:
+                    if fails <= int(os.environ.get("C19_E2E_MAXREP", "2")):
                         C.violation(ctx, "e2e%d" % runs, {
                             "kind": "property-violated-on-implementation", "program": open(path).read(),
                             "options": mopt + filt, "replay": rp.stdout[-1500:], "expected": fmt_ops(want),
